@@ -3,7 +3,7 @@ sys.path.insert(0, os.path.dirname(os.path.abspath(__file__)))
 import _ntt_common as nc
 import props
 
-OPS = ("mulntt", "mulnttshoup", "tab")
+OPS = ("mulntt", "mulnttshoup", "tab", "permtab")
 
 
 FUNCTOR_OPS = ("mulmod", "cshoup", "mulshoup4")
